@@ -8,9 +8,11 @@ B1  MC_Decoder (configuration family C11Cfgs: manufacturer exclude / include lis
 B2+B3  TLC-generated behaviours (3 sources, 14 inputs) are replayed into real decoders (manufacturer
     lists spelled in random letter case; the 10-minute discovery window driven by a settable clock);
     the recorded histories - including the identity (NAME) attached to every returned message - are
-    validated by TLC against N2KDecoder!Step.  The identity fields themselves (unique number,
-    manufacturer, instance, function, class) are checked against the claim payload by C01's codec
-    validation of PGN 60928.
+    validated by TLC against N2KDecoder!Step.
+B3' identity records: address claims with boundary and random 64-bit NAMEs are decoded, followed by data
+    from the claiming source; the identity objects attached to the claim and to the later messages (unique
+    number, manufacturer, instance, function, class, NAME) are judged by TLC (Trace_Codec MODE=C11) as the
+    specified function of the claim's fields, which C01Verdict ties to the payload bits.
 """
 from __future__ import annotations
 
@@ -36,8 +38,79 @@ def classify(clause: str, tr: dict, e: dict):
     return None
 
 
+def pident(iso) -> dict:
+    from .. import project
+    if iso is None:
+        return {"some": False, "unique": 0, "inst": 0, "mfr": project.pv(None), "func": project.pv(None), "cls": project.pv(None),
+                "name": []}
+    name = iso.name if isinstance(iso.name, int) and 0 <= iso.name < 1 << 64 else 0
+    num = lambda x: x if isinstance(x, int) and not isinstance(x, bool) and 0 <= x < 1 << 30 else -1    # noqa: E731
+    return {"some": True, "unique": num(iso.unique_number), "inst": num(iso.device_instance),
+            "mfr": project.pv(iso.manufacturer_code), "func": project.pv(iso.device_function), "cls": project.pv(iso.device_class),
+            "name": list(name.to_bytes(8, "little"))}
+
+
+def identity_records(chk: Check, wd, tier: str, seed: int):
+    """claims with boundary / random NAMEs -> what the decoder attaches to the claim and to later messages"""
+    import random
+
+    from nmea2000.decoder import NMEA2000Decoder
+
+    from .. import corpus, fastpacket as fp, project
+    from ..codec import load_db, validate
+    from ..gen_db import build, load_raw
+    db, _ = load_db(wd)
+    d = next(x for x in db["defs"] if x["id"] == "isoAddressClaim")
+    rawdef = next(p for p in load_raw()["PGNs"] if p["Id"] == "isoAddressClaim")
+    rng = random.Random(seed)
+    payloads = [p for _, p in corpus.payloads_for(d, rng, {"quick": 150, "thorough": 2000, "selftest": 30}[tier])]
+    # known manufacturer / class / function codes in every combination of a few instances
+    keys = sorted(build()["indirect"]["DEVICE_FUNCTION"])
+    mfrs = sorted(int(k) for k in db["lookups"]["MANUFACTURER_CODE"])
+    idx = {f["id"]: i for i, f in enumerate(d["fields"])}
+    for k in range({"quick": 150, "thorough": 1500, "selftest": 30}[tier]):
+        cls, fun = (int(x) for x in rng.choice(keys).split("_"))
+        payloads.append(corpus.build_payload(d, {idx["uniqueNumber"]: rng.getrandbits(21), idx["manufacturerCode"]: rng.choice(mfrs),
+                                                 idx["deviceInstanceLower"]: rng.getrandbits(3), idx["deviceInstanceUpper"]: rng.getrandbits(5),
+                                                 idx["deviceFunction"]: fun, idx["deviceClass"]: cls,
+                                                 idx["systemInstance"]: rng.getrandbits(4), idx["industryGroup"]: rng.getrandbits(3)}))
+    dec = NMEA2000Decoder()
+    recs = []
+    for n, payload in enumerate(payloads):
+        src = 1 + n % 250
+        o = {"pgn": 60928, "p": list(payload), "ret": "none", "err": "", "hdr": {"pgn": 0, "id": "", "desc": "", "ttl": -1}, "f": [], "ids": []}
+        try:
+            m = dec.decode_tcp(fp.ebyte_packet(60928, src, 255, 6, bytes(payload)))
+        except Exception as e:             # noqa: BLE001
+            o["ret"], o["err"] = "err", f"{type(e).__name__}: {e}"[:100]
+            m = None
+        if m is not None:
+            o["ret"] = "msg"
+            o.update(project.pmsg(m, d, rawdef))
+            o["ids"].append(pident(m.source_iso_name))
+            for other in (src, src % 250 + 1):            # data from the claiming source, then from its neighbour
+                m2 = dec.decode_tcp(fp.ebyte_packet(127250, other, 255, 2, bytes([n % 250, 0x10, 0x20, 0, 0, 0, 0, 0xFC])))
+                if other == src and m2 is not None:
+                    o["ids"].append(pident(m2.source_iso_name))
+        recs.append(o)
+    decoded = sum(1 for r in recs if r["ret"] == "msg")
+    chk.gate(decoded >= len(recs) // 2, f"only {decoded} of {len(recs)} claims were decoded")
+    bad = validate("C11", recs, wd, shards=4)
+    for i, vs in bad:
+        for v in vs:
+            what = v["c"] if v["c"].startswith("identity.") else "identity.claim-fields/" + v["c"]
+            if recs[i]["ret"] != "msg":
+                continue        # a claim the decoder refuses attaches no identity: whether it must decode is C01's clause
+            chk.violation(f"{what}", f"claim {bytes(recs[i]['p']).hex()}: {v['c']} "
+                          f"(identity #{v['f']} of {[(x['unique'], x['inst'], x['mfr']['s'], x['func']['s'], x['cls']['s']) for x in recs[i]['ids']]})",
+                          {"claim": bytes(recs[i]["p"]).hex(), "clause": v["c"], "identities": recs[i]["ids"]})
+    chk.add(identity_records=len(recs), identity_claims_decoded=decoded,
+            identities_judged=sum(len(r["ids"]) for r in recs))
+
+
 def bind(chk: Check, tier: str, seed: int):
     wd = workdir(PROP)
+    identity_records(chk, wd, tier, seed)
     traces, outs, drops = c10.run_traces(chk, wd, PROP, tier, seed, classify)
     with_ident = sum(1 for t in traces for e in t["evs"] if e["obsU"]["ret"] == "msg" and e["obsU"]["ident"] not in (0,))
     inside = sum(1 for t in traces for i, e in enumerate(t["evs"][1:], 1)
@@ -92,5 +165,37 @@ def mutant_stale_identity_on_reclaim():
         D._call_decode_function = orig
 
 
-MUTANTS = {"source map keyed by destination": mutant_map_keyed_by_destination,
+@contextlib.contextmanager
+def mutant_instance_shift():
+    import nmea2000.message as M
+    orig = M.IsoName.__init__
+
+    def bad(self, message, name):
+        orig(self, message, name)
+        self.device_instance = (message.get_field_int_value_by_id('deviceInstanceUpper', 0) << 4) \
+            | message.get_field_int_value_by_id('deviceInstanceLower', 0)
+    M.IsoName.__init__ = bad
+    try:
+        yield
+    finally:
+        M.IsoName.__init__ = orig
+
+
+@contextlib.contextmanager
+def mutant_function_is_class():
+    import nmea2000.message as M
+    orig = M.IsoName.__init__
+
+    def bad(self, message, name):
+        orig(self, message, name)
+        self.device_function = self.device_class
+    M.IsoName.__init__ = bad
+    try:
+        yield
+    finally:
+        M.IsoName.__init__ = orig
+
+
+MUTANTS = {"identity: instance upper shifted by 4": mutant_instance_shift, "identity: function taken from class": mutant_function_is_class,
+           "source map keyed by destination": mutant_map_keyed_by_destination,
            "stale identity kept on re-claim": mutant_stale_identity_on_reclaim}
